@@ -66,7 +66,7 @@ Lemma ensure_last : forall s l, Inv s l -> n_last (ensure_order s) = length (n_n
 Proof.
   intros s l (a & b & c & R). unfold ensure_order. destruct (Nat.ltb _ _) eqn:Q.
   - destruct (fix_loop _ _ _); reflexivity.
-  - apply Nat.ltb_ge in Q. destruct R. rewrite r_names0, !app_length in *. lia.
+  - apply Nat.ltb_ge in Q. destruct R as [Rn Ri Rl _ _ _ _ _ _]. rewrite Rl, Rn, !app_length in *. lia.
 Qed.
 
 Lemma idxc_zero_no_idx : forall s l, Inv s l -> n_idxc (ensure_order s) = 0 ->
@@ -75,11 +75,11 @@ Proof.
   intros s l I Z k Hk.
   apply (Inv_ensure_set s l I) in Hk.
   pose proof (ensure_last s l I) as La.
-  destruct (Inv_ensure s l I) as (a & b & c & R). destruct R.
-  rewrite r_idxc0 in Z. destruct a; [|discriminate Z].
-  rewrite r_last0, r_names0, !app_length in La. simpl in La.
+  destruct (Inv_ensure s l I) as (a & b & c & R). destruct R as [Rn Ri Rl _ Ro _ _ _ _].
+  rewrite Ri in Z. destruct a; [|discriminate Z].
+  rewrite Rl, Rn, !app_length in La. simpl in La.
   destruct c; [|simpl in La; lia].
-  rewrite r_names0 in Hk. simpl in Hk. rewrite app_nil_r in Hk. auto.
+  rewrite Rn in Hk. simpl in Hk. rewrite app_nil_r in Hk. auto.
 Qed.
 
 Lemma obj_ok_idx_sound : forall o, obj_ok o ->
@@ -189,6 +189,28 @@ Proof.
   apply andb_prop in E as [E _]. apply Nat.eqb_eq in E. now subst.
 Qed.
 
+(* an unhandled foreign walk changed nothing that lookups can see (only ensurePropOrder ran) *)
+Lemma foreign_unhandled_view : forall fuel h o k num v r h' res ev,
+  i_setwalk fuel h false o k num v r = (h', res, false, ev) ->
+  forall i k', i_getown (ihget h' i) k' = i_getown (ihget h i) k'.
+Proof.
+  induction fuel as [|f IH]; intros h o k num v r h' res ev E i k'; [discriminate E|].
+  simpl in E.
+  set (h0 := if num && is_idx k then iupd h o i_ensure else h) in *.
+  assert (V0 : forall i k', i_getown (ihget h0 i) k' = i_getown (ihget h i) k').
+  { intros i0 k0. unfold h0. destruct (num && is_idx k); auto.
+    rewrite ihget_iupd. destruct (Nat.eqb o i0 && Nat.ltb i0 (length h)); reflexivity. }
+  destruct (if num && is_idx k && Nat.eqb (n_idxc (i_names (ihget h0 o))) 0 then None else i_getown (ihget h0 o) k)
+    as [[v0|p]|].
+  - injection E as <- _ _. apply V0.
+  - destruct (negb (vp_isWritable p)); [discriminate E|].
+    destruct (vp_setter p); [discriminate E|]. injection E as <- _ _. apply V0.
+  - destruct (i_proto (ihget h0 o)) as [p|]; [|injection E as <- _ _; apply V0].
+    destruct (Nat.eqb r p); simpl in E.
+    + destruct (i_setwalk f h0 true p k false v p) as [[[h1 r1] hd] e1]. discriminate E.
+    + rewrite (IH _ _ _ _ _ _ _ _ _ E). apply V0.
+Qed.
+
 Lemma ok_walk : forall fuel h own o k num v r,
   heap_ok h -> heap_ok (walk_heap (i_setwalk fuel h own o k num v r)).
 Proof.
@@ -201,12 +223,12 @@ Proof.
       apply ok_iupd; auto. apply ok_store_existing; auto; congruence.
     + destruct (i_proto (ihget h o)) as [p|].
       * specialize (IH h false p k false v o H).
-        pose proof (i_setwalk_same_own f h p k v o) as SV.
-        destruct (i_setwalk f h false p k false v o) as [[[h1 res] handled] ev].
+        destruct (i_setwalk f h false p k false v o) as [[[h1 res] handled] ev] eqn:Wk.
         unfold walk_heap in *; simpl in *.
         destruct handled; simpl; auto.
         destruct (negb (i_ext (ihget h1 o))); simpl; auto.
-        apply ok_iupd; auto. apply ok_store_new; auto. rewrite SV; auto.
+        apply ok_iupd; auto. apply ok_store_new; auto.
+        rewrite (foreign_unhandled_view _ _ _ _ _ _ _ _ _ _ Wk). exact G.
       * unfold walk_heap; simpl. destruct (negb (i_ext (ihget h o))); simpl; auto.
         apply ok_iupd; auto. apply ok_store_new; auto.
   - set (h0 := if num && is_idx k then iupd h o i_ensure else h).
@@ -222,3 +244,63 @@ Proof.
         destruct (i_setwalk f h0 true p k false v p) as [[[h1 res] hd] ev]. exact IH.
       * apply IH; auto.
 Qed.
+
+Lemma ok_set : forall h o k num v r, heap_ok h -> heap_ok (fst (fst (i_set h o k num v r))).
+Proof.
+  intros h o k num v r H. unfold i_set.
+  destruct (Nat.eqb r o).
+  - pose proof (ok_walk (S (S (length h))) h true o k num v o H) as W.
+    destruct (i_setwalk (S (S (length h))) h true o k num v o) as [[[h1 res] hd] ev]. exact W.
+  - pose proof (ok_walk (S (S (length h))) h false o k num v r H) as W.
+    destruct (i_setwalk (S (S (length h))) h false o k num v r) as [[[h1 res] hd] ev].
+    unfold walk_heap in W; simpl in W.
+    destruct hd; simpl; auto.
+    destruct (i_getown (ihget h1 r) k) as [[v0|p]|]; simpl.
+    + apply ok_iupd; auto using ok_define.
+    + destruct (vp_accessor p); simpl; auto. destruct (negb (vp_writable p)); simpl; auto.
+      apply ok_iupd; auto using ok_define.
+    + apply ok_iupd; auto using ok_define.
+Qed.
+
+(* every operation of the alphabet keeps the bookkeeping invariant of every object *)
+Lemma istep_ok : forall h op, heap_ok h -> heap_ok (fst (fst (istep h op))).
+Proof.
+  intros h op H. destruct op; cbn [istep].
+  - apply ok_iupd; auto using ok_define.
+  - pose proof (ok_set h o k num v r H) as W. destruct (i_set h o k num v r) as [[h1 b] ev]. exact W.
+  - destruct (i_get (S (S (length h))) h o k r). exact H.
+  - exact H.
+  - exact H.
+  - apply ok_iupd; auto using ok_delete.
+  - apply ok_iupd; auto using ok_ensure.
+  - apply ok_iupd; auto using ok_prevent.
+  - apply ok_iupd; auto using ok_freeze.
+  - apply ok_iupd; auto using ok_seal.
+  - apply ok_iupd; auto using ok_ensure.
+  - apply ok_iupd; auto using ok_ensure.
+  - exact H.
+  - exact H.
+  - unfold i_setproto. destruct (ofn_eqb _ _); [exact H|]. destruct (negb _); [exact H|].
+    destruct (i_reaches _ _ _ _); [exact H|]. simpl. apply ok_iupd; auto.
+    destruct (H o) as [I D N]. constructor; auto.
+Qed.
+
+Definition irun (h : iheap) (ops : list op) : iheap := fold_left (fun h o => fst (fst (istep h o))) ops h.
+
+Lemma irun_ok : forall ops h, heap_ok h -> heap_ok (irun h ops).
+Proof. unfold irun. induction ops as [|o r IH]; simpl; intros; auto using istep_ok. Qed.
+
+Lemma heap_ok_empty_objects : forall n, heap_ok (repeat iobj0 n).
+Proof.
+  intros n i. unfold ihget. destruct (nth_in_or_default i (repeat iobj0 n) iobj0) as [H|H].
+  - apply repeat_spec in H. rewrite H. apply obj_ok_0.
+  - rewrite H. apply obj_ok_0.
+Qed.
+
+(* set_eq_spec with the bookkeeping invariant in place of the soundness hypothesis *)
+Lemma set_eq_spec_ok : forall h hs o k num v r,
+  heap_rel h hs -> heap_wf h -> heap_ok h ->
+  heap_rel (fst (fst (istep h (OSet o k num v r)))) (fst (fst (sstep hs (OSet o k num v r)))) /\
+  snd (fst (istep h (OSet o k num v r))) = snd (fst (sstep hs (OSet o k num v r))) /\
+  snd (istep h (OSet o k num v r)) = snd (sstep hs (OSet o k num v r)).
+Proof. intros. apply set_eq_spec; auto using heap_ok_idx_sound. Qed.
